@@ -317,7 +317,7 @@ func (s *SrcPkg) Files() map[string]string {
 	files := map[string]string{}
 	var main strings.Builder
 	fmt.Fprintf(&main, "package %s\n\n", s.Name)
-	main.WriteString("type LocalT struct{ V int }\n\ntype LocalC interface{ Len() int }\n\ntype LocalMarker interface{}\n\ntype LocalKey interface {\n\tcomparable\n\t~int | ~string\n}\n\n")
+	main.WriteString("type LocalT struct{ V int }\n\ntype LocalC interface{ Len() int }\n\ntype LocalMarker interface{}\n\ntype headers = map[string][]string\n\ntype LocalKey interface {\n\tcomparable\n\t~int | ~string\n}\n\n")
 	main.WriteString(s.Extra)
 	n := 0
 	for _, it := range s.Ifaces {
@@ -341,7 +341,7 @@ func (s *SrcPkg) Files() map[string]string {
 			}
 			body.WriteString("}\n")
 			n++
-			files[fmt.Sprintf("f%03d_%s.go", n, strings.ToLower(it.Name))] = fmt.Sprintf("package %s\n\n%s\n%s", s.Name, r.imports(), body.String())
+			files[fmt.Sprintf("f%04d_%s.go", n, strings.ToLower(it.Name))] = fmt.Sprintf("package %s\n\n%s\n%s", s.Name, r.imports(), body.String())
 			continue
 		}
 		// one file per method: Part interfaces embedded by the main one
@@ -354,7 +354,7 @@ func (s *SrcPkg) Files() map[string]string {
 			part := fmt.Sprintf("%sPart%d", it.Name, i+1)
 			body := fmt.Sprintf("type %s interface {\n\t%s\n}\n", part, r.method(m))
 			n++
-			files[fmt.Sprintf("f%03d_%s_%d.go", n, strings.ToLower(it.Name), i+1)] = fmt.Sprintf("package %s\n\n%s\n%s", s.Name, r.imports(), body)
+			files[fmt.Sprintf("f%04d_%s_%d.go", n, strings.ToLower(it.Name), i+1)] = fmt.Sprintf("package %s\n\n%s\n%s", s.Name, r.imports(), body)
 			fmt.Fprintf(&main, "\t%s\n", part)
 		}
 		main.WriteString("}\n\n")
@@ -380,6 +380,12 @@ type Num interface{ ~int | ~int64 }
 type Key interface {
 	comparable
 	~uint64 | ~string
+}
+
+// a generic interface, for embedding instantiated from other packages
+type Getter[T any] interface {
+	Get() T
+	Drain(items ...T) int
 }
 
 // alias declarations (go1.24: also generic ones, with non-named targets)
